@@ -30,11 +30,12 @@ type GenOpts struct {
 	CoinFlips     bool    // applyProbability strictly between 0 and 1 allowed
 	Disabled      bool    // disabled entries allowed
 	WeirdIds      bool
-	Collide       bool   // two ids that become equal under some normalisation (case, surrounding space, truncation)
-	NormWeights   bool   // weights that sum to exactly 1 (a distribution), as many clients send them
-	ManyAlts      bool   // MaxAlts is far beyond the usual bound; most requests use most of it
-	NearTies      bool   // values that differ by less than the tolerances code likes to compare with
-	IDPrefix      string // prepended to every criterion and alternative id (long and / or multi-byte identifiers)
+	OmitAll       float64 // probability that an omission takes EVERY current criterion (outside C07's domain: only set where requests are compared with themselves)
+	Collide       bool    // two ids that become equal under some normalisation (case, surrounding space, truncation)
+	NormWeights   bool    // weights that sum to exactly 1 (a distribution), as many clients send them
+	ManyAlts      bool    // MaxAlts is far beyond the usual bound; most requests use most of it
+	NearTies      bool    // values that differ by less than the tolerances code likes to compare with
+	IDPrefix      string  // prepended to every criterion and alternative id (long and / or multi-byte identifiers)
 	CurrentChoice float64
 }
 
@@ -328,9 +329,25 @@ func (g *Gen) Valid() *Req {
 	var bl []interface{}
 	for i := 0; i < nb; i++ {
 		name := g.O.Biases[r.Intn(len(g.O.Biases))]
-		gb, props := g.bias(q, name, n)
+		nn := n
+		if nn < 1 {
+			nn = 1 // after an omission of everything (OmitAll): later biases are generated as for one criterion
+		}
+		gb, props := g.bias(q, name, nn)
 		n += gb.Adds - gb.Removes
+		if n < 0 {
+			n = 0
+		}
 		entry := J{"name": name, "props": props}
+		// every property of concealment and mixing has a documented default: the entry may come
+		// without props at all, or with props: null
+		if (gb.Kind == "concealment" || gb.Kind == "mixing") && r.Bool(0.12) {
+			if r.Bool(0.5) {
+				delete(entry, "props")
+			} else {
+				entry["props"] = nil
+			}
+		}
 		if r.Bool(0.2) {
 			entry["disabled"] = false
 		}
@@ -701,6 +718,9 @@ func (g *Gen) bias(q *Req, name string, n int) (GenBias, J) {
 				take = 1
 			}
 		}
+		if g.O.OmitAll > 0 && n >= 1 && r.Bool(g.O.OmitAll) {
+			take = n
+		}
 		g.ordering(p)
 		g.split(p, n, take)
 		gb.Removes = take
@@ -774,6 +794,10 @@ func (g *Gen) bias(q *Req, name string, n int) (GenBias, J) {
 				ap["applyOnNotConsidered"] = r.Bool(0.5)
 			}
 			p["applier"] = J{"function": "inline", "params": ap}
+			if len(ap) == 0 && r.Bool(0.5) {
+				// nothing but defaults: the params object may be left out or be null
+				p["applier"] = []J{{"function": "inline"}, {"function": "inline", "params": nil}}[r.Intn(2)]
+			}
 		} else {
 			gb.Kind = "anchoring-new"
 			if r.Bool(0.6) {
@@ -781,6 +805,9 @@ func (g *Gen) bias(q *Req, name string, n int) (GenBias, J) {
 			}
 			g.refCriterion(ap)
 			p["applier"] = J{"function": "newCriterion", "params": ap}
+			if len(ap) == 0 && r.Bool(0.5) {
+				p["applier"] = []J{{"function": "newCriterion"}, {"function": "newCriterion", "params": nil}}[r.Intn(2)]
+			}
 			gb.Adds = 1
 		}
 	}
